@@ -365,6 +365,15 @@ def main():
             f.write(result_text.encode("utf-8"))
     if raw is None:
         raw = ("\n".join(lines) + "\n").encode("ascii") if lines else b""
+    if sh.get("stderr", "0") != "0":
+        # diagnostics on the other stream: they are not the solver's answer, whatever they look like
+        other = "UNSATISFIABLE" if dec else "SATISFIABLE"
+        wrong = " ".join(str(-v) for v in (model or [1])) + " 0"
+        chatter = ["solved in 0.00 seconds", "version 1.0", "s " + other, "v " + wrong, "s", "v x"]
+        k = int(sh.get("stderr"))
+        err = sys.stderr.buffer
+        err.write(("\n".join(chatter[:2] if k == 1 else chatter) + "\n").encode("ascii"))
+        err.flush()
     out.write(raw)
     out.flush()
     return code
